@@ -32,6 +32,7 @@ LEVEL_TEXT = ("Exploration by generated-input search: for each match of $-rooted
               "set-by-parts and remove must equal delete-by-parts, compared as whole documents with strict JSON equality (so "
               "an edit that lands on a look-alike member, adds an int key or touches anything else fails).")
 LEVEL_TEXT += ' The location a match reports must hold the matched node itself (identity for containers) before the three operations are judged.'
+LEVEL_TEXT += ' Member names that are decimal integers beyond the index limit are in the pool (only the routes through pointer text are set aside for them, counted: C04 known finding).'
 BUDGET_S = {"quick": 60, "thorough": 500}
 RULE = ("C03's query stream over nasty-name documents; every match x {test, test-different, replace, remove}. Non-trivial = the "
         "match's parts contain a name that is integer-like, empty, non-ASCII or contains '~' or '/'; distinct by (document, "
